@@ -79,6 +79,7 @@ var sqlKeywords = map[string]bool{
 // String literal handling:
 //   - Keywords inside 'single quotes' are NOT converted
 //   - Keywords inside "double quotes" are NOT converted
+//   - Keywords inside `back quotes` (quoted identifiers) are NOT converted
 //   - Only keywords in SQL code are affected
 type KeywordCaseRule struct {
 	linter.BaseRule
@@ -183,7 +184,7 @@ func tokenizeLine(line string) []wordToken {
 		}
 
 		// Handle string literals - skip keywords inside strings
-		if !inString && (ch == '\'' || ch == '"') {
+		if !inString && (ch == '\'' || ch == '"' || ch == '`') {
 			inString = true
 			stringChar = ch
 			if wordStart >= 0 {
@@ -281,7 +282,7 @@ func (r *KeywordCaseRule) fixLine(line string) string {
 		}
 
 		// Handle string literals - don't modify keywords inside strings
-		if !inString && (ch == '\'' || ch == '"') {
+		if !inString && (ch == '\'' || ch == '"' || ch == '`') {
 			// Flush current word first
 			if wordStart >= 0 {
 				result.WriteString(r.convertKeyword(currentWord.String()))
